@@ -510,3 +510,26 @@ benign('C18', 'Float type check as two isinstance calls',
        [('parameters', "        if not isinstance(value, (float, int)):\n            raise TypeError(f\"parameter value {value} not a number\")", "        if not (isinstance(value, float) or isinstance(value, int)):\n            raise TypeError(f\"parameter value {value} not a number\")")])
 benign('C18', 'read-only guard on the field',
        [('parameters', "        if self.read_only:\n            raise ValueError(f\"parameter {self.key} is read only\")\n        if not isinstance(value, bool):", "        if self._read_only:\n            raise ValueError(f\"parameter {self.key} is read only\")\n        if not isinstance(value, bool):")])
+
+# ----- added after the first round of independently seeded changes
+benign('C18', 'Int bounds as two strict comparisons (no NaN for ints)',
+       [('parameters', "            raise TypeError(f\"parameter value {value} not an int\")\n        if not self._min <= value <= self._max:", "            raise TypeError(f\"parameter value {value} not an int\")\n        if value < self._min or value > self._max:")])
+seeded('C18', 'Float bounds as two strict comparisons (NaN passes)', 'R18.2',
+       [('parameters', "            raise TypeError(f\"parameter value {value} not a number\")\n        if not self._min <= value <= self._max:", "            raise TypeError(f\"parameter value {value} not a number\")\n        if value < self._min or value > self._max:")], key='InputParameterFloat')
+seeded('C14', 'stream setter skips equal streams', 'R14.2',
+       [('distributions', "        self._set_stream(stream)\n\n    def _next_positive_float", "        if stream != self._stream:\n            self._set_stream(stream)\n\n    def _next_positive_float")], key='setter')
+seeded('C13', 're-seeding skipped when the seed is unchanged', 'R13.5',
+       [('streams', "        stream.set_seed(stream.original_seed() + replication_nr * ", "        if stream.seed() != stream.original_seed():\n          stream.set_seed(stream.original_seed() + replication_nr * ")])
+seeded('C06', 'cleanup() after construct_model()', 'R6.1',
+       [('simulator', "        if self.__worker is not None:\n            self.cleanup()\n        self.__worker = SimulatorWorkerThread(self.name, self)\n        self._replication = replication\n        self._model = model\n        self._simulator_time = replication.start_sim_time\n        model.output_statistics().clear()\n        model.construct_model()\n",
+         "        self._replication = replication\n        self._model = model\n        self._simulator_time = replication.start_sim_time\n        model.output_statistics().clear()\n        model.construct_model()\n        if self.__worker is not None:\n            self.cleanup()\n        self.__worker = SimulatorWorkerThread(self.name, self)\n")], key='cleanup-after-construct_model')
+seeded('C05', 'pause handler dereferences the next event', 'R5.1',
+       [('simulator', "                if self._error_strategy == ErrorStrategy.WARN_AND_PAUSE:\n                    self._run_state = RunState.STOPPING\n", "                if self._error_strategy == ErrorStrategy.WARN_AND_PAUSE:\n                    print(self.eventlist().peek_first().time)\n                    self._run_state = RunState.STOPPING\n")], key='WARN_AND_PAUSE')
+seeded('C16', 'chained assignment aliases _mul and _div', 'R16.1',
+       [('units', "Temperature._mul = {}\nTemperature._div = {}\n", "Temperature._mul = Temperature._div = {}\n")], key='Temperature')
+seeded('C17', '_val round-trips through the unit factor', 'R17.9',
+       [('units', "        q = type(self)(si)\n        q._unit = self._unit\n        return q", "        return type(self)(si / self._units[self._unit], self._unit)")], key='_val')
+seeded('C02', 'cancel sifts only one way', 'R1.1',
+       [('eventlist', EL_REMOVE, "            pos = self._event_list.index((event.time, -event.priority,\n                                     event._id, event))\n            last = self._event_list.pop()\n            if pos < len(self._event_list):\n                self._event_list[pos] = last\n                heapq._siftup(self._event_list, pos)\n")])
+seeded('C07', 'event id counter restarted per replication', 'R1.4',
+       [('simevent', "    def __cmp__(self, other: SimEventInterface) -> int:", "    @classmethod\n    def reset_event_counter(cls):\n        cls.__event_counter = 0\n\n    def __cmp__(self, other: SimEventInterface) -> int:")])
